@@ -248,6 +248,9 @@ def main(tier):
         run.inconclusive_because("too few constructions")
     run.exhaustive = False
     run.extra["exhaustive_subspace"] = "all formats of order 0..3 x dims over {0..3} with product <= limit x all coordinate subsets: enumerated completely (counter exhaustive_subspace_constructions)"
+    from .. import contracts_leg
+
+    contracts_leg.run(run, PID, tier)
     run.assumptions += [
         "content oracle = summed supplied entries with zeros dropped; whether explicit zeros are stored is not prescribed (counted only)",
         "a rejected coordinate may raise any exception",
